@@ -84,14 +84,22 @@ def norm_effects(seg):
         k = e[0]
         if k == "emit":
             out.append("emit")
-        elif k in ("add_alt", "add_alt_err"):
-            out.append("alt")
+        elif k == "add_alt":
+            out.append("alt found=%s span=%s at=%s" % (e[1], e[2], e[3]))
+        elif k == "add_alt_err":
+            out.append("alt_err at=%s err=%s" % (e[1], e[2]))
         elif k == "memwrite":
             out.append("write %s:=%s" % (e[1].replace(" ", ""), e[2].replace(" ", "")))
         elif k == "memo":
             out.append("memo %s" % e[1])
         elif k == "rewind_input":
             out.append("reposition")
+        elif k == "cap":
+            out.append("%s %s..%s" % (e[1], e[2], e[3]))
+        elif k == "stash":
+            out.append("stash cursor@%s" % e[2])
+        elif k == "oparg":
+            out.append("%s@%s" % (e[1], e[2]))
     out = [re.sub(r"\('([^']+)',\s*'([^']+)',\s*\d+\)", r"\1.\2", x) for x in out]
     return tuple(sorted(set(out)))
 
